@@ -83,6 +83,21 @@ NOTES = {
  'C15-10': 'first missed: base queries whose root entity is an ALIAS of the model (select(aliased(P)), query(aliased(P)), pre-filtered / ordered) added',
  'C16-11': 'first missed: trees in which one node OBJECT sits at several positions (hand-built, interned random trees, AliasRewriter output) with a numbering override, judged against a document-order reference',
  'C19-10': 'first missed: spellings just outside today\'s grammar (not( , )and( , in( ...) added to the corpus: rejected ones are skipped, an accepted one must be accepted in every keyword case',
+ 'C01-12': 'first missed: the Boolean-spelling matrix (TRUE, True, tRuE ... x eq / ne x operand kinds x sides, in-lists) existed for C02 / C03 only; added to C01',
+ 'C03-12': 'first missed: floor / ceiling / round applied to a LITERAL (2.5, 0.5, -0.5, -2.5 ...) must select what the written-out value selects (round is half away from zero)',
+ 'C06-12': 'first missed: string contents that are not in Unicode normal form C (decomposed accents, ANGSTROM / OHM SIGN, conjoining jamo, compatibility ideographs, ligatures) added',
+ 'C08-12': 'first missed: duration literals were not among the literal kinds of C08; added next to a column, a call, a literal (SQLAlchemy binds the timedelta, Django its microseconds)',
+ 'C10-12': 'first missed: string CONTENTS another parser would choke on (regex repetition bounds beyond 2^32, 1 500 nested groups, format fields, 70 000 characters) as arguments of every built-in',
+ 'C11-12': 'first missed: the call matrix is also parsed on a parser instance that has just FAILED on another input (an invalid call followed by a syntax / tokenising error)',
+ 'C13-12': 'first missed: every duration SHAPE the lexer accepts (T designator with nothing after it, bare P, signs, leading zeros, fractions, lower case) added to the round-trip corpus',
+ 'C14-12': 'first missed: first-use sequences in FRESH processes (a lambda-less any() before a lambda, a call without arguments before one with ...) compared with the substitution',
+ 'C15-11': 'first missed: base queries with loader options (joinedload, selectinload, join + contains_eager) added; the ids of ORM statements are now read from entities',
+ 'C16-12': 'first missed: visitors with a handler for ONE kind only (the others through generic_visit) must meet the handled nodes in depth-first field order',
+ 'C18-12': 'first missed: the null, geography and duration literals were missing from the literal-rejection judge',
+ 'C20-12': 'first missed: inputs that fail strictly INSIDE a lambda body (function, tokenising, syntax error; nested), each followed by every probe that declares a lambda variable',
+ 'C02-12': 'first caught only through the tie: built-ins called with NAMED parameters in and out of declaration order must select what the positional call selects',
+ 'C09-12': 'first caught only through the tie: in-lists of 499 / 500 / 501 / 1 001 / 1 700 options alone and as an operand of and / or / not / a comparison',
+ 'C19-11': 'first caught only through the tie: the re-layout recognises punctuation by its TEXT, so a tree that re-types the comma token is judged by the same whitespace-before-comma variants',
  'C20-4': 'first missed: accumulation histories (40-120 repetitions of one input, nine kinds that leave a parenthesis open) and extreme single inputs added',
 }
 
@@ -93,12 +108,12 @@ def main():
     n = len(res); caught = sum(1 for rc, v in res.values() if rc == '1'); inp = sum(1 for rc, v in res.values() if rc == '1' and 'no-failing' not in v)
     out = ["### 0.5 Seeded changes and which checks catch them", "",
     "Every seeded change below compiles, leaves the pinned suite at 648 passed / 10 xfailed / 4 errors, and was confirmed in a scratch worktree (its own `demo.py` passes on HEAD and fails with the patch;",
-    "`harness/confirm_seed.sh`). They were written in eleven rounds by fresh sub-agents that saw only the property text, a scratch worktree of /repo and (from round 2 on) one-line summaries of the",
+    "`harness/confirm_seed.sh`). They were written in twelve rounds by fresh sub-agents that saw only the property text, a scratch worktree of /repo and (from round 2 on) one-line summaries of the",
     "earlier seeds for the same property so as to differ in mechanism - nothing from /verif. `harness/seed_matrix.sh` applies each in an isolated scratch worktree, runs the quick check of its",
     f"property in a scratch copy of /verif and writes `seeded/RESULTS.tsv`: {caught} of {n} are reported, {inp} with a failing input. Where a change was first missed (or caught only through a broken",
     "tie), the generator or the judge was strengthened (last column, regenerated by `harness/mkseedtable.py`) - the properties and the pass criteria were not touched. First-time detection per round",
     "(own check, before any strengthening): rounds 1-2 (47 seeds): the first misses are the ones marked in the last column (C03-3, C08-3, C12-2, C12-3, C12-4); round 3 (11 seeds): 7 with a failing input,",
-    "1 through the tie only, 3 missed; round 4 (20 seeds): 8 with a failing input, 3 through the tie only, 9 missed; round 5 (20 seeds): 10 with a failing input, 2 through the tie only, 7 missed, 1 crashed the translator; round 6 (20 seeds): 11 with a failing input, 3 through the tie only, 6 missed; round 7 (20 seeds): 13 with a failing input, 4 through the tie only, 3 missed; round 8 (20 seeds): 12 with a failing input, 1 through the tie only, 7 missed; round 9 (20 seeds): 13 with a failing input, 7 missed; round 10 (20 seeds): 8 with a failing input, 5 through the tie only, 7 missed; round 11 (20 seeds): 11 with a failing input, 9 missed - rounds 3 to 11 were asked to avoid every mechanism used before, and each miss named a",
+    "1 through the tie only, 3 missed; round 4 (20 seeds): 8 with a failing input, 3 through the tie only, 9 missed; round 5 (20 seeds): 10 with a failing input, 2 through the tie only, 7 missed, 1 crashed the translator; round 6 (20 seeds): 11 with a failing input, 3 through the tie only, 6 missed; round 7 (20 seeds): 13 with a failing input, 4 through the tie only, 3 missed; round 8 (20 seeds): 12 with a failing input, 1 through the tie only, 7 missed; round 9 (20 seeds): 13 with a failing input, 7 missed; round 10 (20 seeds): 8 with a failing input, 5 through the tie only, 7 missed; round 11 (20 seeds): 11 with a failing input, 9 missed; round 12 (20 seeds): 5 with a failing input, 3 through the tie only, 12 missed - rounds 3 to 12 were asked to avoid every mechanism used before, and each miss named a",
     "blind spot of a GENERATOR or of a judge's scope (literal spellings, type-confusable contents, sequences on one instance, accumulation, an over-broad refusal rule, a schema feature), never of a theorem.", "",
     "| seed | file(s) | what it changes | caught by | note |", "|---|---|---|---|---|"]
     for d in sorted(glob.glob('/verif/seeded/*/')):
